@@ -8,6 +8,75 @@ VERIF = os.path.dirname(os.path.dirname(os.path.abspath(__file__)))
 
 # property -> (technique, level text, level note, design ref)
 CLAIMED = {
+    'C13': (
+        'Hypothesis-generated trees whose diffs are assembled from hunks '
+        'with known +/- counts; oracle = arithmetic ground truth carried by '
+        'the generator + snapshot diff + idempotence',
+        'Trees with 0-4 changes x 0-4 files; each file gets a diff built '
+        'from generated hunks (LF/CRLF, explicit/implicit line_endings, 7 '
+        'encodings incl. UTF-16/32 and EBCDIC, garbage between hunks) or a '
+        'binary/empty/absent/damaged diff, with pre-existing stats '
+        'dictionaries; after generate_stats() file, change and total '
+        'figures must equal the generator\'s counts and sums, everything '
+        'else must be unchanged, and a second call must change nothing.',
+        'Trusted: dxv/hunks.py (geometry and counts by construction).',
+        'DESIGN.md section 5 C13'),
+    'C14': (
+        'Hypothesis-generated hunk sequences with known geometry, '
+        'single-point damages and arbitrary line lists; oracle = geometry '
+        'carried by the generator, exact error line',
+        'Well-formed hunk sequences (start lines incl. 0, counts incl. 0 and '
+        'omitted 1, deceptive payloads, markers anywhere, garbage between) '
+        'must be parsed into exactly the generator\'s geometry, totals and '
+        'consumed-line count in both garbage modes; every single-point '
+        'damage must raise MalformedHunkError naming exactly the damaged '
+        'line; arbitrary lists (incl. the empty list) give a dict or '
+        'MalformedHunkError only.',
+        'Trusted: dxv/hunks.py. A marker after a hunk\'s last counting '
+        'line is a non-hunk line (pinned by a repository test).',
+        'DESIGN.md section 5 C14'),
+    'C15': (
+        'exhaustive sweep of a computed codec catalogue (82 codecs, ~1430 '
+        'spellings) x line endings x indents x texts; oracle = BOM-free '
+        'newline from an incremental encoder, spelling-independence of the '
+        'bytes, round trip',
+        'Every stateless text codec Python registers, under every alias, '
+        'case and hyphen/underscore spelling that can stand as an option '
+        'value: the newline helpers must return the BOM-free encoded '
+        'newline, the writer\'s bytes must be identical apart from the '
+        'spelled name and equal the reference serialisation, and reading '
+        'must return the written text, metadata and diff. Exhaustive over '
+        'the catalogue.',
+        'Trusted: CPython incremental encoders; platform byte order for '
+        'BOM-emitting codecs.',
+        'DESIGN.md section 5 C15'),
+    'C19': (
+        'exhaustive attribute x value-catalogue enumeration + Hypothesis '
+        'tree pairs with single-field perturbations; oracle = documented '
+        'type/choice per attribute, own snapshot equality',
+        'Every documented attribute on every section kind is assigned every '
+        'value of a catalogue (right/wrong type, wrong choice incl. all '
+        'substrings of valid choices, None, bool-for-int); valid values '
+        'must be stored and read back with nothing else changed, invalid '
+        'ones must raise with the whole tree unchanged; unknown constructor '
+        'keywords must be rejected. Generated tree pairs: == iff snapshots '
+        'equal, != its negation, symmetric, non-mutating, equal trees '
+        'serialise identically.',
+        'Trusted: dxv/trees.py snapshot; the attribute table in '
+        'dxv/props/c19.py (from the documented attribute list).',
+        'DESIGN.md section 5 C19'),
+    'C20': (
+        'Hypothesis-generated strings (DiffX fragments + arbitrary Unicode) '
+        'and writer-produced benign UTF-8 files; oracle = concatenation '
+        'identity, no Error token, header tokens == section headers',
+        'The Pygments lexer is run on fragment-assembled and random strings '
+        '(lossless, contiguous indices, 30 s watchdog) and on files '
+        'produced by the real writer from generated UTF-8 programs with '
+        'benign content (no Error token; Name.Tag header tokens equal the '
+        'section headers in order).',
+        'Trusted: Pygments token types. Termination is a watchdog, not a '
+        'proof.',
+        'DESIGN.md section 5 C20'),
     'C05': (
         'Hypothesis-generated object-model trees: to_bytes -> from_bytes; '
         'oracle = model-decided serialisability, reference serializer, own '
